@@ -18,6 +18,7 @@ import (
 // a restart on the same data path, a full drain -- then a ledger over both lifetimes.
 func restartScenario(sc Scenario, dir string) ([]verif.Event, *RunResult) {
 	res := &RunResult{Scenario: "restart " + sc.String()}
+
 	r := &Run{sc: sc, rng: rand.New(rand.NewSource(sc.Seed)), byKey: map[string]*pubRec{}, emptied: map[string]bool{}}
 	rec := &countingRecorder{}
 	rec.Install()
@@ -49,6 +50,13 @@ func restartScenario(sc Scenario, dir string) ([]verif.Event, *RunResult) {
 	// unpaused a few hundred microseconds before the shutdown: the topic pump is then in the middle of copying a
 	// backlog to the channels when Exit arrives
 	fanoutRun := r.rng.Intn(2) == 0
+	// in a third of the other runs the shutdown arrives while the deletion of a side channel is half done (exit flag
+	// set, files gone, still linked in the topic's channel map) and the topic -- paused all along -- holds its whole
+	// backlog in memory: closing that channel fails ("exiting"), everything else must be flushed all the same
+	delpark := !fanoutRun && rand.New(rand.NewSource(sc.Seed*7+3)).Intn(3) != 0
+	if delpark {
+		res.Scenario += " delete-parked"
+	}
 	if fanoutRun {
 		sc.NMsg *= 3
 		r.sc.NMsg = sc.NMsg
@@ -62,10 +70,13 @@ func restartScenario(sc Scenario, dir string) ([]verif.Event, *RunResult) {
 				pausedC[t+"/"+c] = true
 			}
 		}
-		if r.rng.Intn(5) == 0 || (fanoutRun && t == sc.Topics[0]) {
+		if r.rng.Intn(5) == 0 || ((fanoutRun || delpark) && t == sc.Topics[0]) {
 			r.httpAdmin("/topic/pause?topic=" + t)
 			pausedT[t] = true
 		}
+	}
+	if delpark {
+		r.httpAdmin("/channel/create?topic=" + sc.Topics[0] + "&channel=dying")
 	}
 	// a topic with zero channels keeps its backlog too
 	r.httpAdmin("/topic/create?topic=lonely")
@@ -162,11 +173,44 @@ func restartScenario(sc Scenario, dir string) ([]verif.Event, *RunResult) {
 		delete(pausedT, fanout)
 		time.Sleep(time.Duration(r.rng.Intn(300)) * time.Microsecond)
 	}
+	var gate *gateCtl
+	if delpark {
+		select {
+		case <-pubDone:
+		case <-time.After(60 * time.Second):
+		}
+		if tp, err := nd.N.GetExistingTopic(sc.Topics[0]); err == nil {
+			if ch, err := tp.GetExistingChannel("dying"); err == nil {
+				gate = newGateCtl()
+				verif.SetGate(gate.fn)
+				gate.arm("chandelete.afterDelete|" + nsqd.VerifName(ch))
+				go nd.post("/channel/delete?topic="+sc.Topics[0]+"&channel=dying", nil)
+				select {
+				case <-gate.arrived:
+				case <-time.After(10 * time.Second):
+					gate.releaseAll()
+					verif.SetGate(nil)
+					res.Inconclusive = "the channel deletion did not reach its yield point"
+					nd.stop(30 * time.Second)
+					return finish(), res
+				}
+			}
+		}
+	}
 	atomic.StoreInt32(&r.exiting, 1)
 	hlib.Emit("HExitReq")
 	if err := nd.stop(60 * time.Second); err != nil {
+		if gate != nil {
+			gate.releaseAll()
+			verif.SetGate(nil)
+		}
 		r.failf("[C05] %v", err)
 		return finish(), res
+	}
+	if gate != nil {
+		gate.releaseAll()
+		verif.SetGate(nil)
+		time.Sleep(20 * time.Millisecond)
 	}
 	hlib.Emit("HExitDone")
 	close(churnStop)
